@@ -101,6 +101,8 @@ pub fn run(desc: &Value, ctx: &Ctx) -> CaseOut {
             observe(&dc, &mut out);
             match create_mem(&dc) {
                 Err(_) if jstr(&case, "expect") == "unrepresentable" => out.obs.inc("unrepresentable_inputs_refused(no file to decode)"),
+                // the model itself says the directory does not fit the format (a tail beyond 65535 bytes …): a refusal is right
+                Err(_) if representable(&dc, &(0..dc.stores.len()).map(|si| expand(&dc, si)).collect::<Vec<_>>()).0 != Repr::Yes => out.obs.inc("unrepresentable_inputs_refused(no file to decode)"),
                 Err(e) => out.inconclusive(format!("creation failed (C02's concern): {e}")),
                 Ok((inst, bytes)) => {
                     let v = indep::decode_file(&bytes);
